@@ -37,7 +37,7 @@ class Contract:
     """
 
     def __init__(self, target, params, result=None, requires=None, ensures=None, raises=(), modifies=(), loops=None,
-                 spec_fns=None, inline=False, inline_callees=(), props=(), note="", trusted=False, witness=None, exposes=None, defines=None, ghost=None, locals=None, let_abstraction=True, adapt=None, instance=None, axioms=None, ghost_locals=None, raises_when=None):
+                 spec_fns=None, inline=False, inline_callees=(), props=(), note="", trusted=False, witness=None, exposes=None, defines=None, ghost=None, locals=None, let_abstraction=True, adapt=None, instance=None, axioms=None, ghost_locals=None, raises_when=None, opaque_nonlinear=False):
         self.target = target
         self.module, self.qual = target.split(":")
         self.params = dict(params)
@@ -60,6 +60,7 @@ class Contract:
         self.locals = dict(locals or {})    # declared types of locals that start as empty literals
         self.let_abstraction = let_abstraction     # False: keep large array entries expanded (specs that mirror the code term by term)
         self.axioms = list((axioms or {}).items())      # mathematical facts assumed inside the body proof (not required of callers); each is listed as an assumption
+        self.opaque_nonlinear = opaque_nonlinear      # products / quotients of two symbolic reals become uninterpreted (rmul / rdiv): the proof may only use congruence and the axioms the contract states
         self.raises_when = dict(raises_when or {})    # {ExcName: spec over the LOCALS at the raise}: the exception may only escape from a state satisfying the spec (no completeness claim)
         self.ghost_locals = dict(ghost_locals or {})   # {name: type}: ghost variables of the body (arbitrary initial value; written by ghost hooks only)
         self.instance = instance   # distinguishes several contracts of one function (separate ledger entries)
@@ -166,7 +167,12 @@ def verify_function(contract, registry, label_prefix="", feas_timeout_ms=250):
                 eng.oblige("raises.sound", f"{exc}@{eng.site(raised.node)}", eng.spec_eval(cond, entry, old_env=entry), raised.node)
             return ("raise", raised.cls)
 
-        done = eng.explore(run)
+        from . import ops as _ops
+        _ops.OPAQUE_NONLINEAR[0] = bool(contract.opaque_nonlinear)
+        try:
+            done = eng.explore(run)
+        finally:
+            _ops.OPAQUE_NONLINEAR[0] = False
         stale = [k for k in contract.ghost if k not in eng.ghost_hits]
         rep.stale_ghost = stale      # anchors that no longer occur in the body: the ghost update is simply not made; obligations decide
         rep.vacuous_calls = sorted(eng.vacuous_calls)
